@@ -74,6 +74,39 @@ Fixpoint gate_scan (seen : list obs) (os : list obs) : bool :=
   end.
 Definition mon_gate_after_start (env : list label) (os : list obs) : bool := gate_scan [] os.
 
+(** * (d) the notification barrier (C03): once a handler of a request of a later fed message has been entered, no
+    handler of a NOTIFICATION of an earlier fed message is entered or returns any more - so an entry of a later
+    request never falls between the entry and the return of an earlier notification.  Tokens are looked up in
+    the fed messages ([unique_params]: each is the token of one member).  Proof: srv/SrvMonBarrier.v. *)
+Definition label_groups (l : label) : list (list member) :=
+  match l with
+  | LFeed (FMsg (InMsgs _ ms)) | LFeed (FMsgEOF (InMsgs _ ms)) => [map jmem ms]
+  | _ => []
+  end.
+Definition fed_groups (env : list label) : list (list member) := flat_map label_groups env.
+
+Definition mem_params (x : member) : bytes := snd x.
+Definition mem_id (x : member) : bytes := fst (fst x).
+Definition has_tok (p : bytes) (g : list member) : bool := existsb (fun x => beq p (mem_params x)) g.
+(* number of the fed message that carries token p *)
+Fixpoint tok_idx (p : bytes) (F : list (list member)) : nat :=
+  match F with [] => 0 | g :: r => if has_tok p g then 0 else S (tok_idx p r) end.
+Definition tok_is_note (p : bytes) (F : list (list member)) : bool :=
+  existsb (fun x => beq p (mem_params x) && is_nil (mem_id x)) (concat F).
+
+Definition barrier_check (F : list (list member)) (seen : list obs) (o : obs) : bool :=
+  match o with
+  | OStart q _ | OGate q _ =>
+      negb (tok_is_note q F) || forallb (fun r => negb (tok_idx q F <? tok_idx r F)) (starts seen)
+  | _ => true
+  end.
+Fixpoint barrier_scan (F : list (list member)) (seen : list obs) (os : list obs) : bool :=
+  match os with
+  | [] => true
+  | o :: r => barrier_check F seen o && barrier_scan F (o :: seen) r
+  end.
+Definition mon_barrier (env : list label) (os : list obs) : bool := barrier_scan (fed_groups env) [] os.
+
 (** * Proofs *)
 
 (** ** counting *)
